@@ -64,6 +64,9 @@ func runTxCase(c txCase, retry int) (class string, durable bool, attempts int, e
 	ctx, cancel := context.WithCancel(context.WithValue(bg, actorKey{}, "tx"))
 	defer cancel()
 	SetDBHook(e.DSN, func(hctx context.Context, kind CallKind, q string, after bool) error {
+		if a, _ := hctx.Value(actorKey{}).(string); a == "tx" && after && kind == KCommit && c.Inner == "ok-cancel-after" && attempts > retry {
+			cancel() // the caller goes away right after its COMMIT took effect
+		}
 		if a, _ := hctx.Value(actorKey{}).(string); a != "tx" || after {
 			return nil
 		}
@@ -145,13 +148,13 @@ func cmdTxDiff(args []string) error {
 		}
 		return "false"
 	}
-	innerC := map[string]string{"ok": "IOk", "err": "IErr", "panic": "IPanic", "cancel-err": "ICancelErr", "cancel-ok": "ICancelOk"}
+	innerC := map[string]string{"ok": "IOk", "err": "IErr", "panic": "IPanic", "cancel-err": "ICancelErr", "cancel-ok": "ICancelOk", "ok-cancel-after": "IOkCancelAfter"}
 	var lines []string
 	var cases []map[string]interface{}
 	i := 0
 	for _, retry := range []int{0, 2} {
 		for _, bf := range []bool{false, true} {
-			for _, in := range []string{"ok", "err", "panic", "cancel-err", "cancel-ok"} {
+			for _, in := range []string{"ok", "err", "panic", "cancel-err", "cancel-ok", "ok-cancel-after"} {
 				for _, cf := range []bool{false, true} {
 					for _, rf := range []bool{false, true} {
 						c := txCase{bf, cf, rf, in}
